@@ -42,6 +42,9 @@ def progs_get():
     out.append([("_HEADER", b"Accept: */*"), ("_HOSTHEADER", b"Host: cdn.example"), ("_PARAMETER", b"k=v"), ("BUILD", 0), ("BASE64URL", None), ("URI_APPEND", None)])
     out.append([("_HEADER", b'X-Q: a"b'), ("_HEADER", b"X-B: a\\b"), ("BUILD", 0), ("NETBIOS", None), ("PRINT", None)])
     out.append([("BUILD", 0), ("HEADER", b'Co"okie')])
+    # repeated static names: each one is a statement of its own
+    out.append([("_HEADER", b"Accept: a"), ("_HEADER", b"Accept: b"), ("_PARAMETER", b"id=first"), ("_PARAMETER", b"id=second"), ("BUILD", 0), ("BASE64", None), ("HEADER", b"Cookie")])
+    out.append([("_HEADER", b"X: 1"), ("_HOSTHEADER", b"Host: h"), ("_HEADER", b"X: 1"), ("BUILD", 0), ("PRINT", None)])
     return out
 
 
@@ -49,6 +52,7 @@ def progs_post():
     out = [None]
     for arg in HOSTILE:
         out.append([("BUILD", 0), ("APPEND", arg), ("PARAMETER", b"id"), ("BUILD", 1), ("PREPEND", arg), ("MASK", None), ("PRINT", None)])
+    out.append([("_HEADER", b"A: 1"), ("_HEADER", b"A: 2"), ("_PARAMETER", b"p=1"), ("_PARAMETER", b"p=2"), ("BUILD", 0), ("PARAMETER", b"id"), ("BUILD", 1), ("PRINT", None)])
     out.append([("_HEADER", b"Content-Type: text/plain"), ("_PARAMETER", b"a=b=c"), ("BUILD", 0), ("NETBIOS", None), ("HEADER", b"X-Id"), ("BUILD", 1), ("BASE64URL", None), ("URI_APPEND", None)])
     return out
 
@@ -93,7 +97,8 @@ def menu():
     m.append(("transform_x86", 46, [(f"a{a.hex()}p{p.hex()}", Pt, P.procinj_transform(a, p).ljust(256, b"\x00")) for a, p in tf]))
     m.append(("transform_x64", 47, [(f"a{a.hex()}p{p.hex()}", Pt, P.procinj_transform(a, p).ljust(256, b"\x00")) for a, p in tf]))
     ex = [["CreateThread"], ["SetThreadContext", "CreateRemoteThread", "RtlCreateUserThread", "NtQueueApcThread", "NtQueueApcThread-s"], [("CreateThread_", 0x10, b"ntdll.dll", b"RtlUserThreadStart"), ("CreateRemoteThread_", 0, b"kernel32.dll", b"LoadLibraryA")],
-          ["CreateThread", "SetThreadContext", "CreateRemoteThread", "RtlCreateUserThread", "NtQueueApcThread", ("CreateThread_", 1, b"a", b"b"), ("CreateRemoteThread_", 0xFFFF, b"m", b"f"), "NtQueueApcThread-s"], []]
+          ["CreateThread", "SetThreadContext", "CreateRemoteThread", "RtlCreateUserThread", "NtQueueApcThread", ("CreateThread_", 1, b"a", b"b"), ("CreateRemoteThread_", 0xFFFF, b"m", b"f"), "NtQueueApcThread-s"], [],
+          [("CreateThread_", 0, b'"mod', b'fn"'), ("CreateRemoteThread_", 2, b'm"', b'"f')], [("CreateThread_", 0, b"mo d", b"f\\n")]]
     m.append(("execute", 51, [(f"list{i}", Pt, P.execute_list(e).ljust(128, b"\x00")) for i, e in enumerate(ex)]))
     m.append(("allocator", 52, [(v, Sh, struct.pack(">H", v)) for v in (0, 1)]))
     for lab, idx in (("dns_beacon", 60), ("dns_get_a", 61), ("dns_get_aaaa", 62), ("dns_get_txt", 63), ("dns_put_md", 64), ("dns_put_out", 65), ("dnsresolver", 66)):
